@@ -79,7 +79,19 @@ func (cq *concQ) newVersion(q *dns.Msg, rng *rand.Rand, expiring bool) *dns.Msg 
 		m.Extra = append(m.Extra, makeOPT(rng))
 	}
 	cq.mu.Lock()
-	cq.versions[pr.norm] = &verInfo{ttls: pr.ttls, n: n}
+	if old := cq.versions[pr.norm]; old != nil && len(old.ttls) == len(pr.ttls) {
+		// shapes without a marker record: two versions may have identical content and differ
+		// only in their ttls; they are indistinguishable when served, so accept up to the larger ttl
+		tt := append([]uint32(nil), pr.ttls...)
+		for i := range tt {
+			if old.ttls[i] > tt[i] {
+				tt[i] = old.ttls[i]
+			}
+		}
+		cq.versions[pr.norm] = &verInfo{ttls: tt, n: n}
+	} else {
+		cq.versions[pr.norm] = &verInfo{ttls: pr.ttls, n: n}
+	}
 	cq.mu.Unlock()
 	rep.Count("concurrent_versions_registered", 1)
 	return m
@@ -109,7 +121,7 @@ func runConcurrent(cfg concCfg) {
 	e := newEnv(lazyTTL)
 	defer e.close()
 	srng := rand.New(rand.NewSource(cfg.Seed))
-	concShapes := []string{"answer", "answer-opt", "cname-chain", "big", "answer-2opt"}
+	concShapes := []string{"answer", "answer-opt", "cname-chain", "big", "answer-2opt", "rc2:000:o0", "rc3:000:o1", "rc0:100:o0"}
 	qs := make([]*concQ, cfg.Questions)
 	for i := range qs {
 		t := &templates[srng.Intn(len(templates))]
